@@ -29,8 +29,10 @@ type Xlat struct {
 	curFunc  string
 	noSafety bool
 	loopHdrCount map[string]int
-	lockstep bool
+
 	qn int
+	lock *lockCtx
+	lockHavocOK bool
 	view string // property view: clauses tagged for other properties are dropped
 	typeTags map[string]int
 	entryMeasure *Term
@@ -137,6 +139,10 @@ func (x *Xlat) oblName(kind string) string {
 }
 
 func (x *Xlat) emit(st *State, name, kind string, goal *Term, pos token.Pos, text string) *Obligation {
+	if x.lock != nil && kind != "lockstep" {
+		// lockstep mode: the functional obligations are discharged by the other checks; here they are only assumed
+		return &Obligation{Name: name, Kind: kind, Func: x.curFunc, Goal: goal, Text: text, Ctx: x.ctx}
+	}
 	o := &Obligation{Name: name, Kind: kind, Func: x.curFunc, Hyps: st.hyps(), Goal: goal, Text: text, Ctx: x.ctx}
 	if pos.IsValid() {
 		o.Pos = x.prog.Fset.Position(pos)
@@ -151,6 +157,7 @@ func (x *Xlat) safety(st *State, out *Outcomes, kind string, goal *Term, pos tok
 	if goal.IsTrue() {
 		return
 	}
+	x.lockBranch(st, goal, pos, text)
 	if !x.noSafety {
 		x.emit(st, x.oblName("safety."+kind), "safety", goal, pos, text)
 	}
@@ -321,6 +328,7 @@ func (x *Xlat) execStmt(st *State, fr *Frame, s ast.Stmt) *Outcomes {
 			}
 		}
 		c := x.evalCond(st, fr, out, s.Cond)
+		x.lockBranch(st, c, s.Cond.Pos(), "if "+x.src(s.Cond))
 		st1 := st.clone()
 		st1.guard(c)
 		st2 := st
@@ -452,6 +460,7 @@ func (x *Xlat) execSwitch(st *State, fr *Frame, s *ast.SwitchStmt) *Outcomes {
 		if len(conds) > 1 || c.Size() > 8 {
 			c = x.ctx.Define("case", c)
 		}
+		x.lockBranch(cur, c, cc.Pos(), "switch case")
 		stc := cur.clone()
 		stc.guard(c)
 		cur.guard(Not(c))
